@@ -26,6 +26,13 @@ def gen(rng, count, tier):
         call = {'kind': 'lookahead', 'n': n, 'params': params, 'variant': 'imap_unordered',
                 'consumer': rng.choice([[0.0], [0.0, 0.0, 0.004], [0.002], [0.0, 0.01]]),
                 'known_len': rng.random() < 0.7}
+        if k % 4 == 3:
+            # the input is longer than the iterable_len given (the call is cut to iterable_len elements); iterable_len on or off a
+            # chunk boundary.  Nothing beyond the look-ahead bound may be drawn from the input, also at the end of the call
+            call['known_len'] = True
+            call['extra'] = rng.choice([1, 50, 3000])
+            if isinstance(cs, int) and rng.random() < 0.7:
+                call['n'] = n = max(cs, (n // cs) * cs)
         sc = {'id': f'b{k}', 'pool': {'n_jobs': nj, 'start_method': sms[k % len(sms)]}, 'calls': [call], 'budget': 90,
               'env': {'VERIF_TASK_SLEEP': rng.choice(['0', '0.001', '0.003'])}}
         scens.append(sc)
